@@ -94,19 +94,9 @@ def check(rep, tier, seed):
     comp = [c07.race_case(seed, 2 * i + 1, ["tikv", "badger", "memkv"][i % 3]) for i in range(12 if tier == "quick" else 300)]
     cases += comp
     core.run_cases(cases)
-    for c in cases:
-        rep.count_case(c)
-        if c.meta.get("stress"):
-            hit = stress_oracle(c)
-        else:
-            hit = sched.oracle_c01(c) or sched.oracle_cf_justified(c)
-        if hit:
-            if core.handle_oracle_hit(rep, "C01", hit[1], c, hit[0], hit[1]):
-                return
-            continue
-        if c.diff() is not None:
-            core.handle_diff(rep, "C01", "correspondence", c)
-            return
+    pick = lambda c: stress_oracle(c) if c.meta.get("stress") else (sched.oracle_c01(c) or sched.oracle_cf_justified(c))
+    if core.judge(rep, "C01", cases, pick):
+        return
     rep.cov["exhaustive_pair_schedules"] = len(ex)
     rep.assumptions += ["each engine serialises overlapping transactions on one index key (memkv store mutex, badger SSI, tikv optimistic conflict): "
                         "the gated harness applies each batch atomically at its release point",
